@@ -126,7 +126,7 @@ def effDefs (ds : Defs) : Defs :=
 
 def validSrc (F : Forest (List Char)) (p : Pos) : Bool := (node? F p).isSome
 
-def spellCmds : List String := ["resolve", "resolvep", "deps", "depsp", "macro", "mdefs", "strip"]
+def spellCmds : List String := ["resolve", "resolvep", "deps", "depsp", "macro", "mdefs", "strip", "blank"]
 
 def handleSpell (toks : List String) : String :=
   match toks with
@@ -140,6 +140,10 @@ def handleSpell (toks : List String) : String :=
     else if cmd == "strip" then
       match unhex js with
       | some t => "ok " ++ hex (stripShellComments t)
+      | none => "bad-op"
+    else if cmd == "blank" then
+      match unhex js with
+      | some t => "ok " ++ hex (blankComments t)
       | none => "bad-op"
     else
     match Json.parse js with
@@ -172,7 +176,7 @@ def handleSpell (toks : List String) : String :=
     let cap? : Option (Option Nat) := if cap == "-" then some none else cap.toNat?.map some
     match cap?, unhex text, optUnhex ps, optUnhex pe, optUnhex nw, unhex td with
     | some cap, some text, some ps, some pe, some nw, some td =>
-      showOutcome (process { projectStart := ps, projectEnd := pe, nowAttr := nw, today := td } cap text)
+      showOutcome (processText { projectStart := ps, projectEnd := pe, nowAttr := nw, today := td } cap text)
     | _, _, _, _, _, _ => "bad-op"
   | _ => "bad-op"
 
